@@ -27,6 +27,7 @@ Definition cp_del_list (g : graph) (n : N) (dp : bool) : list N :=
   let fam := cp_family g n dp in dedup (fam ++ cp_links g fam).
 
 Definition remove_cp_and_links (n : N) (dp : bool) : M unit :=
+  m_nonempty ;;;
   _ <- need_node n ;;
   l <- m_get (fun g => cp_del_list g n dp) ;;
   for_each_set m_delete l.
@@ -330,7 +331,7 @@ Record obs := mkObs {
 }.
 
 Definition exn_code (e : exn) : N :=
-  match e with ETopology => 1 | EQuery => 2 | EAssert => 3 | EIndex => 4 | EAmbig => 99 end%N.
+  match e with ETopology => 1 | EQuery => 2 | EAssert => 3 | EIndex => 4 | EAmbig => 99 | EType => 9 end%N.
 
 Fixpoint insertN (x : N) (l : list N) : list N :=
   match l with
